@@ -66,6 +66,80 @@ class CallGraph:
                 return name
         return None
 
+    def _ctor_classes(self, n, fn):
+        """class names a call expression may construct: X(...), j1939.X(...), or alias(...) where `alias` is a local that is only
+        ever bound to classes (alias = X in sibling branches, or the target of a loop over a display that names classes)"""
+        k = self._cls_of_expr(n, fn)
+        if k:
+            return [k]
+        if not (isinstance(n, ast.Call) and isinstance(n.func, ast.Name)):
+            return []
+        name = n.func.id
+        out, other = set(), False
+        for a in ast.walk(fn.node):
+            if isinstance(a, ast.Assign) and any(isinstance(t, ast.Name) and t.id == name for t in a.targets):
+                if isinstance(a.value, ast.Name) and a.value.id in self.prog.top_classes:
+                    out.add(a.value.id)
+                elif isinstance(a.value, ast.Attribute) and a.value.attr in self.prog.top_classes:
+                    out.add(a.value.attr)
+                elif isinstance(a.value, ast.Constant) and a.value.value is None:
+                    pass
+                else:
+                    other = True
+            elif isinstance(a, (ast.For, ast.comprehension)) and any(isinstance(x, ast.Name) and x.id == name for x in ast.walk(a.target)):
+                for x in ast.walk(a.iter):
+                    if isinstance(x, ast.Name) and x.id in self.prog.top_classes:
+                        out.add(x.id)
+        return sorted(out) if out and not other else []
+
+    def _call_keywords(self, call, fn):
+        """keyword bindings of a call, `**name` expanded when `name` is a local bound once to a dict display / dict(k=v) call
+        (displays may themselves splice other such locals in)"""
+        out = {}
+
+        def expand(expr, depth=0):
+            if depth > 3:
+                return
+            if isinstance(expr, ast.Name):
+                asg = [a for a in ast.walk(fn.node) if isinstance(a, ast.Assign) and any(isinstance(t, ast.Name) and t.id == expr.id for t in a.targets)]
+                if len(asg) == 1:
+                    expand(asg[0].value, depth + 1)
+                    # later `name['k'] = v` / name.update(k=v) refinements
+                    for a in ast.walk(fn.node):
+                        if isinstance(a, ast.Assign) and len(a.targets) == 1 and isinstance(a.targets[0], ast.Subscript) and \
+                                isinstance(a.targets[0].value, ast.Name) and a.targets[0].value.id == expr.id and \
+                                isinstance(a.targets[0].slice, ast.Constant) and isinstance(a.targets[0].slice.value, str):
+                            out[a.targets[0].slice.value] = a.value
+                        if isinstance(a, ast.Call) and isinstance(a.func, ast.Attribute) and a.func.attr == "update" and \
+                                isinstance(a.func.value, ast.Name) and a.func.value.id == expr.id:
+                            for kw in a.keywords:
+                                if kw.arg:
+                                    out[kw.arg] = kw.value
+                                else:
+                                    expand(kw.value, depth + 1)
+                            for ar in a.args:
+                                expand(ar, depth + 1)
+            elif isinstance(expr, ast.Dict):
+                for k_, v_ in zip(expr.keys, expr.values):
+                    if k_ is None:
+                        expand(v_, depth + 1)
+                    elif isinstance(k_, ast.Constant) and isinstance(k_.value, str):
+                        out[k_.value] = v_
+            elif isinstance(expr, ast.Call) and isinstance(expr.func, ast.Name) and expr.func.id == "dict":
+                for ar in expr.args:
+                    expand(ar, depth + 1)
+                for kw in expr.keywords:
+                    if kw.arg:
+                        out[kw.arg] = kw.value
+                    else:
+                        expand(kw.value, depth + 1)
+        for kw in call.keywords:
+            if kw.arg:
+                out[kw.arg] = kw.value
+            else:
+                expand(kw.value)
+        return out
+
     def _scan_fields(self):
         P = self.prog
         for (c, f), t in EXTRA_FIELD_TYPES.items():
@@ -74,8 +148,7 @@ class CallGraph:
         for fn in P.all_funcs():
             for n in ast.walk(fn.node):
                 if isinstance(n, ast.Call):
-                    k = self._cls_of_expr(n, fn)
-                    if k:
+                    for k in self._ctor_classes(n, fn):
                         ctor_calls.append((fn, n, k))
                 tgt = val = None
                 if isinstance(n, ast.Assign) and len(n.targets) == 1:
@@ -90,9 +163,10 @@ class CallGraph:
                 if tgt is None or val is None or fn.cls is None:
                     continue
                 if isinstance(tgt, ast.Attribute) and isinstance(tgt.value, ast.Name) and tgt.value.id == "self":
-                    k = self._cls_of_expr(val, fn)
-                    if k:
-                        self.field_types.setdefault((fn.cls.name, tgt.attr), set()).add(k)
+                    ks = self._ctor_classes(val, fn)
+                    if ks:
+                        for k in ks:
+                            self.field_types.setdefault((fn.cls.name, tgt.attr), set()).add(k)
                     elif isinstance(val, ast.Name) and val.id in fn.annotations:
                         an = fn.annotations[val.id].split(".")[-1].strip("'\"")
                         if an in P.top_classes:
@@ -111,9 +185,7 @@ class CallGraph:
             for i, a in enumerate(call.args):
                 if i < len(init.params):
                     bound[init.params[i]] = a
-            for kw in call.keywords:
-                if kw.arg:
-                    bound[kw.arg] = kw.value
+            bound.update(self._call_keywords(call, caller))
             for st in ast.walk(init.node):
                 if isinstance(st, ast.Assign) and len(st.targets) == 1 and isinstance(st.targets[0], ast.Attribute) \
                         and isinstance(st.targets[0].value, ast.Name) and st.targets[0].value.id == "self" \
